@@ -39,6 +39,82 @@ def half_pixel_matrix(t, transform_param):
             and is_call(v, 'euclid::vec2', 'Vector2D::<T, U>::new') and const_val(v[2][0]) == 0.5 and const_val(v[2][1]) == 0.5)
 
 
+GRAD_TABLE = {
+    # Source variant: (shader type, payload index of the source transform, payload indices handed on before spread, payload index of spread, make fn)
+    'RadialGradient': ('RadialGradientShader', 2, [], 1, 'make_source'),
+    'LinearGradient': ('LinearGradientShader', 2, [], 1, 'make_source'),
+    'TwoCircleRadialGradient': ('TwoCircleRadialGradientShader', 6, [2, 3, 4, 5], 1, 'make_two_circle_source'),
+    'SweepGradient': ('SweepGradientShader', 4, [2, 3], 1, 'make_sweep_source'),
+}
+
+
+def gradient_composed(ctx):
+    """{Source variant: bool}: the gradient shader as choose_shader ends up building it -- the constructor's result with
+    the call-site arguments substituted -- is
+        {gradient: payload.gradient.make_*source(<payload args in order>, &transform_to_fixed(&ti.then(&payload transform)
+                   .pre_translate(vec2(0.5, 0.5))), alpha), spread: payload spread}
+    wherever the pieces of that expression are computed (in the constructor, at the call site, or split between them)."""
+    from geomalg import tsubst
+    cache = ctx.__dict__.setdefault('_grad_composed', None)
+    if cache is not None:
+        return cache
+    out = {}
+    b = ctx.F.body(CS)
+    if b is None:
+        ctx.__dict__['_grad_composed'] = out
+        return out
+    for bi, s0, t in storage_aggs(ctx, b):
+        v = t[3]
+        if v not in GRAD_TABLE:
+            continue
+        ty, tidx, mids, sidx, mk = GRAD_TABLE[v]
+        p = strip_all(t[4][0][1])
+        okc = False
+        cb = ctx.F.body(BL + ty + '::new')
+        if p[0] == 'call' and p[1] == BL + ty + '::new' and cb is not None:
+            rts = shared.ret_terms(ctx, cb)
+            if len(rts) == 1 and rts[0][0] == 'agg':
+                comp = tsubst(rts[0], {i + 1: a for i, a in enumerate(p[2])})
+                f = dict(comp[4])
+
+                def pay(t2, k, *more):
+                    t2 = strip_all(t2)
+                    names = []
+                    while t2[0] in ('deref', 'ref') or (t2[0] == 'field' and t2[3] in ('euclid::Point2D', 'euclid::Vector2D')):
+                        if t2[0] == 'field':
+                            names.append(t2[2])
+                        t2 = strip_all(t2[1])
+                    return t2[0] == 'field' and t2[2] == str(k) and t2[4] == v and (t2[3] or '').endswith('draw_target::Source') and tuple(names) == tuple(more)
+                g = strip_all(f.get('gradient', ('unknown',)))
+                okc = is_call(g, 'Gradient::' + mk) and pay(g[2][0], 0)
+                if okc:
+                    a = g[2]
+                    if mk == 'make_two_circle_source':
+                        okc = len(a) == 9 and pay(a[1], 2, 'x') and pay(a[2], 2, 'y') and pay(a[3], 3) and pay(a[4], 4, 'x') and pay(a[5], 4, 'y') and pay(a[6], 5)
+                        rest = a[7:]
+                    elif mk == 'make_sweep_source':
+                        okc = len(a) == 5 and pay(a[1], 2) and pay(a[2], 3)
+                        rest = a[3:]
+                    else:
+                        okc = len(a) == 3
+                        rest = a[1:]
+                if okc:
+                    mt = strip_all(rest[0])
+                    okc = is_call(mt, 'blitter::transform_to_fixed')
+                    if okc:
+                        m = strip_all(mt[2][0])
+                        okc = is_call(m, 'pre_translate')
+                        if okc:
+                            vv = strip_all(m[2][1])
+                            okc = then_of(m[2][0], v, tidx) and is_call(vv, 'euclid::vec2', 'Vector2D::<T, U>::new') and const_val(vv[2][0]) == 0.5 and const_val(vv[2][1]) == 0.5
+                    # the alpha argument: the alpha byte of choose_shader (that it is the global alpha is R03.5)
+                    okc = okc and any(x == ('param', 3) for x in subterms(rest[1]))
+                okc = okc and pay(f.get('spread', ('unknown',)), sidx)
+        out[v] = okc
+    ctx.__dict__['_grad_composed'] = out
+    return out
+
+
 def r12_1(ctx):
     R = 'R12.1'
     P = lambda i: ('param', i)
@@ -69,6 +145,11 @@ def r12_1(ctx):
                 ok = ok and lead_got == lead
                 ok = ok and half_pixel_matrix(a[1 + len(lead)], tp) and a[2 + len(lead)] == P(ap)
             ok = ok and f.get('spread') == P(sp)
+        if not ok:
+            # the half-pixel conjugation / matrix product may have moved between constructor and call site: what counts is
+            # the shader that choose_shader ends up with
+            variant = [vv for vv, row in GRAD_TABLE.items() if row[0] == ty]
+            ok = bool(variant) and gradient_composed(ctx).get(variant[0]) is True
         ctx.check(ok, R, key + '::new', b.loc(), '%s(%stransform_to_fixed(transform.pre_translate(.5,.5)), alpha), spread stored' % (mk, '…, ' if lead else ''),
                   '%s::new does not build gradient.%s(%s&transform_to_fixed(&transform.pre_translate(vec2(0.5, 0.5))), alpha) with the arguments in order and store the spread: %s' % (ty, mk, 'c1.x, c1.y, r1, c2.x, c2.y, r2, ' if 'two' in mk else ('start_angle, end_angle, ' if 'sweep' in mk else ''), [fmt(b, t) for t in rts]))
         sb = ctx.body('<%s%s as raqote::blitter::Shader>::shade_span' % (BL, ty), R)
@@ -243,6 +324,8 @@ def r12_3(ctx):
             for j, k in enumerate(mids):
                 ok = ok and pay(a[2 + j], k)
             ok = ok and pay(a[2 + len(mids)], sidx)
+        if not ok:
+            ok = gradient_composed(ctx).get(v) is True
         ctx.check(ok, R, key + '|' + v, b.loc(s['sp']), 'Source::%s -> %s::new(gradient, ti.then(transform), payload in order, spread, alpha)' % (v, ty),
                   'the %s arm does not build %s::new(gradient, &ti.then(&transform), %sspread, alpha) from its own payload slot by slot: %s' % (v, ty, ''.join('payload %d, ' % k for k in mids), fmt(b, p)))
     ctx.floor(R, 'gradient arms of choose_shader', n, 4)
